@@ -119,6 +119,10 @@ pub struct Machine<T: Pl> {
     host_id_base: u32,
     /// `Yield` is offered only once the task has a waitable set (see `no_early_yield`)
     pub no_early_yield: bool,
+    /// do not start an operation on an end the host already considers DONE
+    /// (the runtime forgets an unobserved `DROPPED|0`; under `block_on` that known
+    /// defect would end the whole process inside the synchronous wait)
+    pub avoid_done_ends: bool,
     ever_pending: bool,
 }
 
@@ -144,7 +148,7 @@ fn sr_text(r: StreamResult) -> String {
 
 impl<T: Pl> Machine<T> {
     pub fn new(specs: Vec<EpSpec>, max_actions: u32, host_id_base: u32) -> Machine<T> {
-        Machine { specs, eps: vec![], ops: vec![], busy: vec![], closed: vec![], actions_left: max_actions, set_up: false, host_id_base, no_early_yield: false, ever_pending: false }
+        Machine { specs, eps: vec![], ops: vec![], busy: vec![], closed: vec![], actions_left: max_actions, set_up: false, host_id_base, no_early_yield: false, avoid_done_ends: false, ever_pending: false }
     }
 
     fn setup(&mut self) {
@@ -203,6 +207,14 @@ impl<T: Pl> Machine<T> {
         }
         self.busy = vec![false; self.eps.len()];
         self.closed = vec![false; self.eps.len()];
+    }
+
+    fn host_says_done(&self, e: usize) -> bool {
+        let h = match &self.eps[e] {
+            Ep::SW { handle, .. } | Ep::SR { handle, .. } => *handle,
+            _ => return false,
+        };
+        host::with(|x| x.end_is_done(h))
     }
 
     fn ep_alive(&self, i: usize) -> bool {
@@ -550,7 +562,7 @@ impl<T: Pl> Future for Machine<T> {
                 acts.push(Act::Poll(i));
             }
             for e in 0..me.eps.len() {
-                if me.ep_alive(e) && !me.busy[e] && !me.closed[e] {
+                if me.ep_alive(e) && !me.busy[e] && !me.closed[e] && !(me.avoid_done_ends && me.host_says_done(e)) {
                     acts.push(Act::NewOp(e));
                 }
             }
